@@ -1,20 +1,143 @@
-(* C14 - Snapshot metadata serialization is lossless for every manifest; strict prefixes are rejected.
-   Property theorems only; each closed by [exact] of a lemma from proofs/*.v. *)
-From TS Require Import model.Base model.Codec model.Json model.ManifestCodec.
-From TS Require Import proofs.CodecProofs.
+(* C14 - Snapshot metadata serialization is lossless for every manifest; every strict prefix is rejected.
+   Property theorems only; each closed by [exact] of a lemma from proofs/CodecProofs.v, JsonProofs.v,
+   ManifestCodecProofs.v.
 
-(* Layer 1a: Python str(int) followed by int(str) is the identity, for every integer of any magnitude. *)
+   Vocabulary (all executable, in coq/model):
+     str_ok s     every code point of s is in 0..0x10FFFF (surrogates allowed) and no high surrogate is
+                  immediately followed by a low surrogate
+     wf_j v       every string and key of the JSON value v is str_ok; keys of one object are pairwise distinct
+     md_ok md     every string occurring in the metadata (version, logical paths, dict keys, string primitives,
+                  locations, serializers, dtypes, obj_types, readable) is str_ok; manifest paths are distinct
+     sprefix p s  p is a strict prefix of s
+     drop_readable  sets PrimitiveEntry.readable to None (what the reader does on purpose) *)
+From TS Require Import model.Base model.Codec model.Json model.ManifestCodec.
+From TS Require Import proofs.CodecProofs proofs.JsonProofs proofs.ManifestCodecProofs.
+
+(* ------------------------------------------------------------------ layer 1: primitive codecs *)
+(* Python str(int) followed by int(str) is the identity, for every integer of any magnitude. *)
 Theorem C14_int_of_str_of_int : forall z : Z, int_of_str (str_of_int z) = Some z.
 Proof. exact int_of_str_of_int. Qed.
 Print Assumptions C14_int_of_str_of_int.
 
-(* Layer 1b: base64 decode after encode is the identity on every byte list (all lengths, all padding cases). *)
+(* base64 decode after encode is the identity on every byte list (all lengths, all three padding cases). *)
 Theorem C14_b64decode_encode : forall bs : list Z, bytes_ok bs -> b64decode (b64encode bs) = Some bs.
 Proof. exact b64decode_encode. Qed.
 Print Assumptions C14_b64decode_encode.
 
-(* Layer 1c: PrimitiveEntry.get_value inverts _serialize for every int, str, bool, bytes and every 8-byte float
+(* PrimitiveEntry.get_value inverts _serialize for every int, str, bool, bytes value and every 8-byte float
    pattern (NaN payloads, signed zero, subnormals, infinities are all just 8 bytes here). *)
 Theorem C14_get_value_serialize : forall v : pvalue, pvalue_ok v -> get_value (kind_of v) (serialize v) = Some v.
 Proof. exact get_value_serialize. Qed.
 Print Assumptions C14_get_value_serialize.
+
+(* ------------------------------------------------------------------ layer 2: string escaping *)
+(* json.loads of json.dumps(s, ensure_ascii=True) is s, for every string over the full code-point range:
+   non-BMP characters, control characters, line separators, quotes, backslashes, lone surrogates. *)
+Theorem C14_unescape_escape : forall s : pystr, str_ok s = true -> unescape (escape s) = Some s.
+Proof. exact unescape_escape. Qed.
+Print Assumptions C14_unescape_escape.
+
+(* The hypothesis of the previous theorem is forced: a high surrogate code point immediately followed by a low
+   surrogate code point (two code points, each in range) is read back as ONE code point.  Replayed on the real
+   json module on every run (known finding C14:json-merges-adjacent-hi-lo-surrogate-code-points). *)
+Theorem C14_unescape_escape_needs_hyp :
+  exists s : pystr, forallb cp_ok s = true /\ no_adj_hi_lo s = false /\
+                    unescape (escape s) = Some [65536] /\ length s = 2%nat.
+Proof. exact unescape_escape_needs_hyp. Qed.
+Print Assumptions C14_unescape_escape_needs_hyp.
+
+(* ... and two different strings then have the same escaped text (two manifest paths collide). *)
+Theorem C14_escape_collision_refuted : exists a b : pystr, a <> b /\ escape a = escape b.
+Proof. exact escape_not_injective_without_hyp. Qed.
+Print Assumptions C14_escape_collision_refuted.
+
+(* ------------------------------------------------------------------ layer 3: entries *)
+(* from_yaml_obj inverts dataclasses.asdict for every entry of every kind (list, dict, OrderedDict with int /
+   str / bool keys of any magnitude, the five primitive kinds, Tensor with or without byte_range, ShardedTensor,
+   ChunkedTensor, DTensor with arbitrarily nested mesh, object), up to `readable`. *)
+Theorem C14_entry_of_yaml_of_entry : forall e : entry, entry_of_yaml (yaml_of_entry e) = Some (drop_readable e).
+Proof. exact entry_of_yaml_of_entry. Qed.
+Print Assumptions C14_entry_of_yaml_of_entry.
+
+(* get_value() of the entry read back equals get_value() of the entry written ... *)
+Theorem C14_get_value_preserved : forall e e' : entry,
+  entry_of_yaml (yaml_of_entry e) = Some e' -> entry_get_value e' = entry_get_value e.
+Proof. exact get_value_preserved. Qed.
+Print Assumptions C14_get_value_preserved.
+
+(* ... and for an entry made by PrimitiveEntry.from_object it is the original value, bit for bit. *)
+Theorem C14_from_object_get_value : forall (v : pvalue) (repr : pystr) (e' : entry), pvalue_ok v ->
+  entry_of_yaml (yaml_of_entry (from_object v repr)) = Some e' -> entry_get_value e' = Some v.
+Proof. exact from_object_get_value. Qed.
+Print Assumptions C14_from_object_get_value.
+
+(* ------------------------------------------------------------------ layer 4: documents *)
+(* json.loads (json.dumps (v, indent=2)) = v for every well-formed JSON value (any nesting, any size). *)
+Theorem C14_parse_print : forall v : jvalue, wf_j v = true -> parse (print v) = Some v.
+Proof. exact parse_print. Qed.
+Print Assumptions C14_parse_print.
+
+(* ------------------------------------------------------------------ layer 5: truncation *)
+(* No strict prefix of a printed object, array, string or literal is accepted by the parser - with ANY amount
+   of fuel, so the rejection is never an artefact of the fuel bound.  (Numbers are excluded: "12" is a strict
+   prefix of "123"; a metadata document is an object.) *)
+Theorem C14_strict_prefix_rejected : forall (v : jvalue) (p : list Z) (fuel : nat),
+  wf_j v = true -> (forall z, v <> JInt z) -> sprefix p (print v) -> parse_fuel fuel p = None.
+Proof. exact strict_prefix_rejected_fuel. Qed.
+Print Assumptions C14_strict_prefix_rejected.
+
+(* ------------------------------------------------------------------ layer 6: SnapshotMetadata *)
+(* from_yaml (to_yaml md) = md up to `readable`, for every well-formed metadata, whatever the legacy YAML
+   fallback does (the json.loads branch always succeeds on what to_yaml wrote). *)
+Theorem C14_metadata_roundtrip : forall (yaml_oracle : list Z -> option metadata) (md : metadata),
+  md_ok md = true -> from_yaml yaml_oracle (to_yaml md) = Some (drop_readable_md md).
+Proof. exact metadata_roundtrip. Qed.
+Print Assumptions C14_metadata_roundtrip.
+
+(* Every strict prefix of a serialized metadata document is rejected by from_yaml, provided the YAML fallback
+   rejects it (hypothesis yaml_rejects: the fallback is libyaml, not modelled; the harness tests the real
+   from_yaml on every sampled prefix). *)
+Theorem C14_from_yaml_rejects_strict_prefix : forall (yaml_oracle : list Z -> option metadata),
+  (forall md p, md_ok md = true -> sprefix p (to_yaml md) -> yaml_oracle p = None) ->
+  forall md p, md_ok md = true -> sprefix p (to_yaml md) -> from_yaml yaml_oracle p = None.
+Proof. exact from_yaml_rejects_strict_prefix. Qed.
+Print Assumptions C14_from_yaml_rejects_strict_prefix.
+
+(* No two manifests (well formed, different up to `readable`) share a document. *)
+Theorem C14_to_yaml_injective : forall md1 md2 : metadata, md_ok md1 = true -> md_ok md2 = true ->
+  to_yaml md1 = to_yaml md2 -> drop_readable_md md1 = drop_readable_md md2.
+Proof. exact to_yaml_injective. Qed.
+Print Assumptions C14_to_yaml_injective.
+
+(* ------------------------------------------------------------------ non-vacuity *)
+Definition ex_md : metadata :=
+  mkMd [48; 46; 49] 2
+    [([48; 47; 55296; 34; 92; 10; 8232; 65279; 1114111],
+      EDict [KStr [120; 57343; 55296]; KInt (-10000000000000000000000000000000000000000); KBool true]);
+     ([48; 47; 120], EPrim PFloat (b64encode [1; 0; 0; 0; 0; 0; 240; 127]) false (Some [110; 97; 110]));
+     ([48; 47; 116], ETensor (mkTensor [119] [98] [102] [2; 3] true (Some [0; 24])));
+     ([48; 47; 100], EDTensor [mkShard [0] [2] (mkTensor [] [] [] [] false None)] (MList [MList [MInt 0]; MInt 1]) [[-1]])].
+
+Example C14_example_md_ok : md_ok ex_md = true.
+Proof. vm_compute. reflexivity. Qed.
+
+Example C14_example_roundtrip :
+  from_yaml (fun _ => None) (to_yaml ex_md) = Some (drop_readable_md ex_md) /\ Nat.ltb 400 (length (to_yaml ex_md)) = true.
+Proof. vm_compute. split; reflexivity. Qed.
+
+Definition ex_small : metadata :=
+  mkMd [48] 1 [([48; 47; 55296; 34], EDict [KStr [92; 1114111]; KInt (-7); KBool true])].
+
+Example C14_example_prefixes :
+  md_ok ex_small = true /\
+  forallb (fun k => match parse (firstn k (to_yaml ex_small)) with None => true | Some _ => false end)
+          (seq 0 (length (to_yaml ex_small))) = true.
+Proof. vm_compute. split; reflexivity. Qed.
+
+Example C14_example_float_bits :
+  entry_get_value (EPrim PFloat (b64encode [1; 0; 0; 0; 0; 0; 240; 127]) false None)
+  = Some (VFloat [1; 0; 0; 0; 0; 0; 240; 127]).
+Proof. vm_compute. reflexivity. Qed.
+
+Example C14_example_sprefix : sprefix [123; 10] (print (JObj [([97], JNull)])).
+Proof. eexists. split; [|vm_compute; reflexivity]. discriminate. Qed.
